@@ -747,6 +747,15 @@ impl Serialize for Filter {
         if let Some(lcs) = &self.lifecycles {
             state.serialize_field("lifecycles", &lcs)?;
         }
+        if let Some((verb_mstp_mtin, mask)) = self.verb_mstp_mtin {
+            // from_json derives the mask from the value (mstp: only the mstp bits, verb_mstp_mtin: all bits or w.o. mtin)
+            if mask == (0x07u8 << 1) {
+                let mstp: u8 = (verb_mstp_mtin >> 1) & 0x07;
+                state.serialize_field("mstp", &mstp)?;
+            } else {
+                state.serialize_field("verb_mstp_mtin", &verb_mstp_mtin)?;
+            }
+        }
         state.end()
     }
 }
